@@ -22,6 +22,11 @@ CLAIMED = {
             "TLC checks exhaustively (2 loaders, 2 sessions, 4 clock values) that with the mtime-keyed cache of the implementation a load always returns the last stored session, notfound or error for a torn file, and that NoInvalidateOnStore / CoarseForeign each break it; then every op sequence up to length 4 (5 in thorough) over Store/Load/Tick/Crash and every crash prefix of the file is executed on real files through session.NewFromFile and each recorded event is judged by TLC against the specification.",
             "file-system clock modelled by os.Chtimes to an abstract clock; torn file = strict prefix of the whole-file write; the resume-without-key-exchange half is exercised by the session-engine harness when built",
             "5 C12"),
+    "C08": ("model_checking",
+            "TLA+ spec (Transport.tla) model-checked with TLC over every segmentation; real loopback-TCP runs judged by TLC against TransportObs.tla",
+            "TLC explores every way the network can split the byte stream (any k units at a time) for both modes, small and escape-length frames, empty bodies, close at a boundary and inside a frame, and checks delivered = prefix of sent, mode detected, EOF only after all complete frames, error only on a torn frame, termination; ShortRead alone must break it. About 3k real runs over loopback TCP (segmenting writer with cuts inside announcement and headers, all subsets for a short stream, error-code frames, mid-frame close, byte-exact capture of the write direction) are each judged by TLC against the observable-level specification, including the exact header bytes FrameHeader(mode, n).",
+            "loopback TCP with TCP_NODELAY and pauses realises the cuts; frames carry random bytes; a torn frame may surface as error or EOF (statement forbids only a message)",
+            "5 C08"),
 }
 
 NOT_YET = {}
